@@ -10,7 +10,7 @@ CONSTANTS
   BodyPanics = TRUE
   BodyUsesPool = FALSE
   JoinerOnPool = FALSE
-  ReceiverDrops = TRUE
+  ReceiverDrops = FALSE
   SkipIfReceiverGone = FALSE
 SPECIFICATION Spec
 INVARIANTS TypeOK ExactlyOnce ResultDelivery JoinedFirst SeqNoOverlap SeqAllFinished AllStartedAtJoin ConcNothingLeft JoinAfterExit
